@@ -28,8 +28,17 @@ pub(crate) mod thread {
 
   use std::time::Duration;
 
+  #[cfg(not(excsn_fibre_verif))]
   pub fn park_timeout(_duration: Duration) {
     panic!("thread::park_timeout is not modeled under loom - keep timeout paths out of loom tests");
+  }
+
+  /// Verification hook (only with `--cfg excsn_fibre_verif`, where the crate named `loom` is the
+  /// verification harness' deterministic scheduler): timed parking is a scheduling point of that
+  /// scheduler, which either delivers an unpark or fires the timeout.
+  #[cfg(excsn_fibre_verif)]
+  pub fn park_timeout(duration: Duration) {
+    loom::thread::park_timeout(duration);
   }
 
   pub fn sleep(_duration: Duration) {
